@@ -36,7 +36,7 @@ RULE = (
     "event-log digest; non-trivial = >=2 generations changed the hall of fame and >=1 two-qubit move or selection step was drawn."
 )
 PROBES = ["hof_unfilled_slots", "hof_tie_replaced_by_smaller", "selection_drawn", "two_qubit_move_drawn",
-          "probabilistic_setting", "hybrid_solver", "n_hof_gt_n_pop", "dm_compiler", "starting_circuit_given", "metric_log_steps_gt_1", "compiled_signed_target"]
+          "probabilistic_setting", "hybrid_solver", "n_hof_gt_n_pop", "dm_compiler", "starting_circuit_given", "metric_log_steps_gt_1", "compiled_signed_target", "noise_model_given"]
 REAL = ["graphiq.solvers.evolutionary_solver.EvolutionarySolver.solve", "graphiq.solvers.hybrid_solvers.HybridEvolutionarySolver",
         "graphiq.solvers.solver_base (seed, update_hof, tournament_selection)", "graphiq.metrics.Infidelity", "both compilers",
         "numpy.random / random global generators (observed, not replaced)"]
@@ -83,6 +83,8 @@ def gen_case(run_seed, tier):
         # a target that is not a graph state: a stabilizer state compiled from a short seeded circuit (signed generators
         # in arbitrary order); only for the plain evolutionary solver
         "compiled_target": kind == "evo" and sz.random() < 0.4,
+        # a depolarizing noise model on emitter Hadamards: scores are then computed with noise switched on
+        "noise": kind == "hyb" and sz.random() < 0.3,
     }
     return case
 
@@ -122,6 +124,10 @@ def simplify(case):
         c = dict(case)
         c["compiled_target"] = False
         yield c
+    if case.get("noise"):
+        c = dict(case)
+        c["noise"] = False
+        yield c
 
 
 # ------------------------------------------------------------------------------------------------ one execution
@@ -159,6 +165,14 @@ def _mk(case):
     comp = StabilizerCompiler() if case["backend"] == "stab" else DensityMatrixCompiler()
     comp.measurement_determinism = {0: 0, 1: 1, 2: "probabilistic"}[case["det"]]
     return target, Infidelity(target, log_steps=case.get("log_steps", 1)), comp
+
+
+def _noise_map(case):
+    if not case.get("noise"):
+        return None
+    import graphiq.noise.noise_models as nm
+
+    return {"e": {"Hadamard": nm.DepolarizingNoise(0.05)}, "p": {}, "ee": {}, "ep": {}}
 
 
 def hof_view(hof):
@@ -213,7 +227,7 @@ def execute(case, pollution):
                     start = helper.initialization(ea, ma)
                 s = S(target=target, metric=metric, compiler=comp, circuit=start, n_emitter=case["ne"], n_photon=case["n"], solver_setting=setting)
             else:
-                s = S(target=target, metric=metric, compiler=comp, solver_setting=setting)
+                s = S(target=target, metric=metric, compiler=comp, solver_setting=setting, noise_model_mapping=_noise_map(case))
             s.seed(case["seed"])
             s.solve()
     except Exception as e:
@@ -245,7 +259,7 @@ def execute(case, pollution):
         if c is None:
             h2.append(None)
             continue
-        h2.append(sorted(rescore(case, c)))
+        h2.append(rescore(case, c))
     out["h2"] = h2
     return out
 
@@ -256,6 +270,8 @@ def rescore(case, circ):
 
     def once(bits, fallback):
         target, metric, comp = _mk(case)
+        if case.get("noise"):
+            comp.noise_simulation = True  # the solver scored with its noise model switched on
         script = OutcomeScript(bits, fallback=fallback)
         with OwnedRNG(random.Random(1), outcomes=script):
             st = comp.compile(circ)
@@ -265,8 +281,8 @@ def rescore(case, circ):
         return list(script.used)
 
     # also under forced settings the trace-out of an emitter that is still entangled draws an outcome: enumerate
-    sweep(once, max_leaves=32 if case["det"] == 2 else 8, extra_samples=0)
-    return scores
+    leaves, complete, aborted = sweep(once, max_leaves=32 if case["det"] == 2 else 8, extra_samples=0)
+    return {"scores": sorted(scores), "complete": bool(complete)}
 
 
 # ------------------------------------------------------------------------------------------------ other interpreters
@@ -344,8 +360,12 @@ def judge_single(ctx, case, e, tag):
     for (sc, qasm), again in zip(e["hof"], e["h2"]):
         if qasm is None:
             continue
-        if not any(close(sc, x) for x in again):
-            ctx.violate("H2_stored_score", -1, f"{tag}: stored score {sc} but the stored circuit re-evaluates to {again[:4]}", dict(sig, det=case["det"]))
+        if not any(close(sc, x) for x in again["scores"]):
+            if not again["complete"]:
+                # more outcome branches than were enumerated (noise mixtures x probabilistic measurements): no verdict
+                ctx.probe("h2_inconclusive_branch_space_too_large")
+                continue
+            ctx.violate("H2_stored_score", -1, f"{tag}: stored score {sc} but the stored circuit re-evaluates to {again['scores'][:4]}", dict(sig, det=case["det"]))
             return False
     if not e["result_is_hof0"]:
         ctx.violate("H3_result_not_best", -1, f"{tag}: solver.result (score {e['result_score']}) is not the first hall-of-fame entry ({e['hof'][0][0]})", sig)
@@ -367,6 +387,8 @@ def run_case(case):
         ctx.probe("starting_circuit_given")
     if case.get("log_steps", 1) > 1:
         ctx.probe("metric_log_steps_gt_1")
+    if case.get("noise"):
+        ctx.probe("noise_model_given")
     if case.get("compiled_target") and case["backend"] == "stab":
         ctx.probe("compiled_signed_target")
     pol = case["pollution"]
